@@ -324,11 +324,13 @@ impl MqttState {
             }
 
             let pkid = publish.pkid;
+            // an id is still in use while the release of a QoS 2 publish sent with it awaits its PUBCOMP
             if self
                 .outgoing_pub
                 .get(publish.pkid as usize)
                 .ok_or(StateError::Unsolicited(publish.pkid))?
                 .is_some()
+                || self.outgoing_rel.contains(pkid as usize)
             {
                 info!("Collision on packet id = {:?}", publish.pkid);
                 self.collision = Some(publish);
